@@ -8,6 +8,7 @@ type Scenario struct {
 	Name    string `json:"name"`
 	Setup   []Op   `json:"setup"`
 	Threads [][]Op `json:"threads"`
+	Post    []Op   `json:"post,omitempty"` // run sequentially after all threads finished, before the final-state comparison
 }
 
 func ConcUniverse() *Universe {
@@ -30,6 +31,7 @@ func Scenarios(thorough bool) []Scenario {
 	markEv := func(txs []int, ev []int) Op { return Op{Kind: "mark", Txs: txs, Evicted: ev} }
 	pack := Op{Kind: "pack", K: 0}
 	unmark := Op{Kind: "unmark"}
+	tick := Op{Kind: "tick"} // the pool's background task: one age tick of the pending container (runs outside the pool lock)
 	s := []Scenario{
 		{Name: "add-vs-mark-same-tx", Threads: [][]Op{{add(0)}, {mark(0)}}},
 		{Name: "readd-vs-mark", Setup: []Op{add(0)}, Threads: [][]Op{{add(0)}, {mark(0)}}},
@@ -43,6 +45,14 @@ func Scenarios(thorough bool) []Scenario {
 		{Name: "gate-add-vs-mark", Setup: []Op{add(0)}, Threads: [][]Op{{add(3)}, {mark(0)}}},
 		{Name: "gate-add-vs-mark-two-evict", Setup: []Op{add(0), add(1), add(2)}, Threads: [][]Op{{add(3)}, {markEv([]int{0, 1}, []int{2})}}},
 		{Name: "gate-add-vs-pack", Setup: []Op{add(0)}, Threads: [][]Op{{add(3)}, {pack}}},
+		// the age tick next to the block bookkeeping; afterwards the block is removed again (reorg) or the
+		// evicted transaction is submitted again: it must be pending and packable
+		{Name: "tick-vs-mark-then-unmark", Setup: []Op{add(0)}, Threads: [][]Op{{tick}, {mark(0)}}, Post: []Op{unmark, pack}},
+		// (one pending transaction per tick scenario: sync.Map.Range visits several keys in Go's randomised
+		// map order, which would make a schedule's meaning differ between two runs of the same choices)
+		{Name: "tick-vs-evict-then-readd", Setup: []Op{add(0)}, Threads: [][]Op{{tick}, {markEv(nil, []int{0})}}, Post: []Op{add(0), pack}},
+		{Name: "tick-vs-add", Threads: [][]Op{{tick}, {add(0)}}, Post: []Op{pack}},
+		{Name: "tick-vs-pack", Setup: []Op{add(0)}, Threads: [][]Op{{tick}, {pack}}},
 		{Name: "gate-add-vs-unmark", Setup: []Op{add(0), mark(0)}, Threads: [][]Op{{add(3)}, {unmark}}},
 	}
 	if thorough {
@@ -50,6 +60,7 @@ func Scenarios(thorough bool) []Scenario {
 			Scenario{Name: "add-add-mark", Threads: [][]Op{{add(0)}, {add(1)}, {mark(0, 1)}}},
 			Scenario{Name: "mark-unmark-vs-add", Setup: []Op{add(0)}, Threads: [][]Op{{mark(0), unmark}, {add(0)}}},
 			Scenario{Name: "two-adds-vs-pack", Threads: [][]Op{{add(0), add(1)}, {pack, pack}}},
+			Scenario{Name: "tick-vs-mark-vs-pack", Setup: []Op{add(0)}, Threads: [][]Op{{tick}, {mark(0)}, {pack}}, Post: []Op{unmark, pack}},
 			Scenario{Name: "gate-add-vs-mark-gate", Setup: []Op{add(0), add(3)}, Threads: [][]Op{{add(3)}, {mark(0, 3)}}},
 			Scenario{Name: "gate-add-vs-mark-vs-add", Setup: []Op{add(0)}, Threads: [][]Op{{add(3)}, {mark(0)}, {add(0)}}},
 		)
@@ -64,11 +75,24 @@ type PlannedOp struct {
 	Block *Block
 }
 
+// HasTick reports whether the scenario uses the age tick.
+func (sc Scenario) HasTick() bool {
+	for _, l := range append(append([][]Op{sc.Setup}, sc.Threads...), sc.Post) {
+		for _, op := range l {
+			if op.Kind == "tick" {
+				return true
+			}
+		}
+	}
+	return false
+}
+
+// Plan returns the per-thread plans followed by one more plan for the Post operations.
 func (sc Scenario) Plan(im *Impl) [][]PlannedOp {
 	var chain []Block
 	chain = append(chain, im.Blocks...)
-	plans := make([][]PlannedOp, len(sc.Threads))
-	for t, ops := range sc.Threads {
+	plans := make([][]PlannedOp, len(sc.Threads)+1)
+	for t, ops := range append(append([][]Op{}, sc.Threads...), sc.Post) {
 		for _, op := range ops {
 			po := PlannedOp{Op: op}
 			switch op.Kind {
